@@ -244,6 +244,13 @@ class CIAReader(TypeReaderCryptoBase):
 
             curr_offset += record.size
 
+    def close(self):
+        """Close the reader and the readers of its contents."""
+        if not self.closed:
+            for content in getattr(self, 'contents', {}).values():
+                content.close()
+        super().close()
+
     def __repr__(self):
         info = [('title_id', self.tmd.title_id)]
         try:
